@@ -619,10 +619,11 @@ class Run:
                 if P1 != "C01":
                     self.bad("C01", "job.started_twice", f"job {k} was started {c} times")
         if not faulty:
-            # "every job was either placed in exactly one batch or canceled without running" (C01)
-            both = sorted({jid(e[4][0]) for e in tr if e[1] == "row" and e[4][2] == "canceled"} & set(placed))
+            # a job canceled by a submitter round (it was not yet submitted: the row goes straight into the consolidated
+            # file) is never handed to the HPC; a job canceled on its node is in that node's batch and nowhere else (C01)
+            both = sorted({jid(e[4][0]) for e in tr if e[1] == "row" and e[4][2] == "canceled" and e[3] == "processed_results.csv"} & set(placed))
             if both:
-                self.bad("C01", "job.canceled_and_placed", f"jobs {both} were recorded as canceled and also handed to the HPC in a batch")
+                self.bad("C01", "job.canceled_and_placed", f"jobs {both} were canceled by a submitter before submission and also handed to the HPC in a batch")
         rows = vc.read_rows()
         # ---- rows: never lost (C11/C08 flavour), canceled rows (C04)
         written = [e for e in tr if e[1] == "row"]
